@@ -144,6 +144,14 @@ class HistRunner:
                 p.watch[w] = 0 if p.watch[w] is None else p.watch[w] + 1
             p.write_watch(self.top, w, self.clock)
             m.touch_src(w)
+        elif k == 'watch_during':
+            # the watched path comes into existence while the script that declared it with redo-ifcreate is still running
+            # (right before the script ends): the file is parked next to it and the script moves it into place
+            w = op[1]
+            if p.watch.get(w, 0) is not None or w in p.watch_link or os.path.lexists(self.path(w)):
+                return False
+            write_file(self.path(w) + '.during', ('%s w0\n' % w).encode(), self.clock)
+            self.pending_during = getattr(self, 'pending_during', set()) | {w}
         elif k == 'uwrite':
             n, how = op[1], op[2]
             data = ('user %s v%d\n' % (n, m.srcver.get(n, 0) + 1)).encode() * (1 + m.srcver.get(n, 0) % 3)
@@ -371,6 +379,13 @@ class HistRunner:
             if n in p.user and self.fingerprint(n) != fp:
                 anoms.append(Anomaly(cls='user-file-touched', key='user-file-touched:%s' % kinds_of(p, n), target=n,
                                      what='user-owned %s changed during %s' % (n, argv)))
+        # ---- watched paths that appeared while their watcher's script was running: from now on they exist
+        for w in sorted(getattr(self, 'pending_during', ())):
+            if not os.path.lexists(self.path(w) + '.during') and os.path.lexists(self.path(w)):
+                p.watch[w] = 0
+                m.touch_src(w)
+                self.pending_during.discard(w)
+                self.stats['watched_paths_created_during_the_watching_script'] = self.stats.get('watched_paths_created_during_the_watching_script', 0) + 1
         entry['anoms'] = [a['key'] for a in anoms]
         if anoms:
             entry['trace'] = [' '.join(f) for f in recs][-120:]
